@@ -1,6 +1,6 @@
 """C05 — strong handles keep an actor alive, weak never do; last drop drains, then stops."""
 import core, nfa, loops, graph, own, chan
-from mir import Body
+from mir import Body, agg_sites
 from props.c03 import run_loops
 
 EXPL = ("Ownership graph over types (A2): owns*(T) is computed by the extractor through ADT fields, Box/Arc/PhantomData, "
@@ -168,6 +168,31 @@ def check_cfg(ctx, fx, cfg):
                     handle_objects.add(s_["def"])
     for ho_ in handle_objects:
         HOLDERS.setdefault(ho_, "a named object inside a strong handle (stands for one of its closures)")
+    # ... likewise a private struct of a handle's module that the handle's closures capture (`struct ChannelHalves { tx, force_tx }`
+    # inside `Caller::new`'s call closure): it is held by nothing but strong handles and the closures of that module
+    for a_ in fx.d["adts"]:
+        d_ = a_["def"]
+        if d_ in HOLDERS or not d_.startswith(HANDLE_TRAIT_MODULES) or a_.get("vis") == "pub":
+            continue
+        needle_ = "/%s." % d_.split("::")[-1]
+        strong_ = tuple("/%s." % k_.split("::")[-1] for k_ in own.STRONG_KINDS)
+        seen_, inside_ = False, True
+        for o2 in fx.owns:
+            if o2["def"] == d_:
+                continue
+            for a2 in o2["atoms"]:
+                for p2 in a2.get("paths", []):
+                    if needle_ not in p2:
+                        continue
+                    seen_ = True
+                    pre_ = p2[:p2.index(needle_) + 1]
+                    # reached through a strong handle that the owner holds, or directly from a closure of the handle's own module
+                    via_handle = any(s_ in pre_ for s_ in strong_) or (o2["kind"] == "adt" and o2["def"] in own.STRONG_KINDS)
+                    own_closure = o2["kind"] in ("closure", "coroutine") and o2["def"].startswith(HANDLE_TRAIT_MODULES)
+                    if not (via_handle or own_closure):
+                        inside_ = False
+        if seen_ and inside_:
+            HOLDERS[d_] = "a private struct captured by the closures of a strong handle (part of the handle)"
     for o in fx.owns:
         if o["kind"] != "adt":
             continue
@@ -224,6 +249,16 @@ def check_cfg(ctx, fx, cfg):
         pf = fx.fn(df.get("parent") or "") or {}
         if df.get("kind") == "coroutine" and pf.get("is_async") and pf.get("kind") in ("fn", "assoc_fn") and not pf.get("impl_trait"):
             return "async fn"
+        # a closure literal handed straight to a combinator of `Option` / `Result` / an iterator (`addr.stop().map(|()| addr)`): it is
+        # called or dropped before that call returns, nothing can keep it
+        if df.get("kind") == "closure" and pf:
+            from mir import sinks as _sinks
+            pb_ = ctx.body(fx, pf)
+            sites_ = [(st_["p"][0]) for _bi, _si, st_ in agg_sites(pb_, ak="closure") if st_["r"].get("def") == d and len(st_["p"]) == 1]
+            if len(sites_) == 1:
+                sk_ = _sinks(pb_, sites_[0])
+                if sk_ and all(x["k"] == "call" and (x["t"].get("callee") or "").startswith(("core::option::", "core::result::", "core::iter::")) and not x["t"].get("callee_local") for x in sk_):
+                    return "transient combinator argument"
         return None
 
     def through_exempt(path, d):
@@ -268,6 +303,12 @@ def check_cfg(ctx, fx, cfg):
     if cfg != "bare":
         from props import c08 as _c08
         _c08.check_no_live_eviction(ctx, fx, cfg, "R05.13")
+        # R05.14 (shared with C17) "an actor that nobody stopped keeps running as long as at least one strong handle exists": what a
+        # join future takes out of the slot and waits on has no power over the task — giving a join up (a timeout, a lost select)
+        # does not cancel the actor while other strong handles are in use
+        from props import c17 as _c17
+        core.shared(ctx, "R05.14", _c17.check_join_handle_is_inert, ctx, fx, cfg, "R05.14")
+        core.shared(ctx, "R05.14", _c17.check_join, ctx, fx, cfg, "R05.14")
     check_closed_mailbox_exit(ctx, fx, cfg)
     # R05.8 every strong kind owns a mailbox sender
     for k in own.STRONG_KINDS:
